@@ -416,6 +416,10 @@ def find_witness(cls, what, dialect="default", src=None):
                     got = inst.to_dict()
                     got = got.get(f.name, "<key missing>")
                     why = None if samples.same(got, exp) else f"to_dict()[{f.name!r}] = {got!r}, the reference gives {exp!r}"
+                    if why is None:
+                        sh = samples.shared_mutables(got, v)
+                        if sh and not samples.shared_mutables(exp, v):
+                            why = f"to_dict()[{f.name!r}] shares the mutable container {sh[0]!r} with the instance (the reference result shares nothing)"
                 except Exception as e:  # noqa
                     why = f"to_dict() raised {type(e).__name__}: {str(e)[:160]}, the reference gives {exp!r}"
                 if why:
